@@ -8,6 +8,7 @@ import MinkModel.Literal
 import MinkModel.Output
 import MinkModel.Wire
 import MinkModel.Skel
+import MinkModel.Conc
 namespace Mink
 
 structure PState where
@@ -450,5 +451,46 @@ def skelFacts (r : SkelReq) : List String :=
         "guards " ++ (match fn with
           | some of => " ".intercalate ((guards of.2.params).map fun g => s!"{g.1}:{g.2}")
           | none => "") ]
+
+
+/-! ### `conc` requests: is this observed history of one object a behaviour of `Conc`? -/
+
+def parseAct (tok : String) : Option Conc.Act :=
+  match tok.splitOn ":" with
+  | k :: rest =>
+    match rest.mapM String.toNat? with
+    | none => none
+    | some ns =>
+      match k, ns with
+      | "cl", [t, h, h'] => some (.clone t h h')
+      | "sn", [t, h, u] => some (.send t h u)
+      | "rc", [t, h] => some (.recv t h)
+      | "ln", [t, h, u] => some (.lend t h u)
+      | "ul", [t, h, u] => some (.unlend t h u)
+      | "ca", [t, h, d] => some (.call t h d)
+      | "en", [t, h, v] => some (.enter t h v)
+      | "ex", [t, h, v] => some (.exit t h v)
+      | "rt", [t, h, v] => some (.ret t h v)
+      | "dr", [t, h] => some (.drop t h)
+      | "id", [t] => some (.implDrop t)
+      | "dd", [t] => some (.dropped t)
+      | _, _ => none
+  | [] => none
+
+def concSummary (s : Conc.St) : String :=
+  s!"refs={s.refs} handles={s.handles.length} bodies={s.inBody.length} lock={s.lock} total={s.total} " ++
+  s!"completed={s.log.length} droppers={s.droppers.length} freeing={s.freeing.isSome} drops={s.drops} quiescent={Conc.quiescent s}"
+
+/-- `conc <t0> <h0> <act>*` -/
+def concFacts (toks : List String) : List String :=
+  match toks with
+  | t0 :: h0 :: rest =>
+    match t0.toNat?, h0.toNat?, (rest.filter (· ≠ "")).mapM parseAct with
+    | some t, some h, some acts =>
+      match Conc.replay (Conc.init t h) acts 0 with
+      | .ok s => [s!"ok events={acts.length} {concSummary s}"]
+      | .error i => [s!"stuck {i} {(rest.filter (· ≠ "")).getD i "?"}"]
+    | _, _, _ => ["bad-request conc tokens"]
+  | _ => ["bad-request conc"]
 
 end Mink
